@@ -270,7 +270,11 @@ pub fn run_l2(cfg: &Cfg, prop: L2) -> i32 {
         let mut faults = Faults::default();
         if prop == L2::C03 {
             if let Some(s) = &failing_set {
-                faults.by_query.insert(format!("!i{s},1"), Fault::Other("injected failure".into()));
+                // an error response, or something that is not a response of the protocol at all (a
+                // rate limiter's text line), the connection staying open
+                let f = if idx % 2 == 0 { Fault::Other(crate::c11::long_message(&mut r, "injected failure")) } else { Fault::Garbage(b"% query rate limit exceeded, try again later\n".to_vec()) };
+                rep.count(if idx % 2 == 0 { "l2_cases_with_error_response_on_the_as_set_query" } else { "l2_cases_with_a_non_protocol_reply_to_the_as_set_query" });
+                faults.by_query.insert(format!("!i{s},1"), f);
             }
         }
         let irr = match Server::start(database.clone(), faults) {
